@@ -696,6 +696,20 @@ class Interp(StmtMixin, ExtMixin, OpsMixin, InterpCore):
         if hi is None:
             self.err(node, "bisect on a sequence of symbolic length")
         lo, hi = 0, int(hi)
+        extra = list(args[2:]) + [kwargs[k] for k in ("lo", "hi") if k in kwargs]
+        if len(args) > 4 or set(kwargs) - {"lo", "hi"}:
+            self.err(node, "bisect_left arguments")
+        bounds = {"lo": args[2] if len(args) > 2 else kwargs.get("lo"), "hi": args[3] if len(args) > 3 else kwargs.get("hi")}
+        for nm, bv in bounds.items():
+            if bv is None or (isinstance(bv, Const) and bv.v is None):
+                continue
+            c = bv.const() if isinstance(bv, Num) else None
+            if c is None or c.denominator != 1:
+                self.err(node, "bisect_left with a symbolic %s" % nm)
+            if nm == "lo":
+                lo = int(c)
+            else:
+                hi = int(c)
         while lo < hi:
             mid = (lo + hi) // 2
             item = self.getitem(seq, Num(ep.const(mid)), node)
